@@ -3,3 +3,4 @@ pub mod comp;
 pub mod util;
 pub mod s4;
 pub mod grid;
+pub mod wide;
